@@ -199,7 +199,7 @@ def _worker_main(modname, conn):
             # from a place that never raises).  That is reported as a violation with the traceback, not as a harness error:
             # a behaviour change must never be able to hide behind "the check crashed".
             tb = traceback.format_exc()
-            T.violation('harness', 'check-crashed:' + tb.strip().splitlines()[-1].split(':')[0][:40], {'job': repr(job)[:300]}, detail=tb[-1500:])
+            T.violation('harness', 'check-crashed:' + tb.strip().splitlines()[-1].split(':')[0][:40], {'job': repr(job)[:300], 'job_pickle': __import__('pickle').dumps(job).hex()}, detail=tb[-1500:])
             T.ev(1)
             try:
                 conn.send(('ok', idx, T.export()))
